@@ -43,3 +43,21 @@ add("C12", "exploration",
     SIM_NOTE,
     "deterministic simulation: multi-step operation histories over a simulated disk with an injected one-byte corruption of durable state",
     "DESIGN.md section 4, C12")
+
+add("C08", "exploration",
+    "Relation between histories from one initial disk: `--all`, the single invocations in walk order, the single invocations in seeded other orders, and `--all` under permuted directory listings (WalkDir seam) must leave the same bytes in the rules file and every .ra file, report the same per-rule lines and agree on failure. Worlds carry cross-file probes (a stored expression only another file stores, an unclosed block, definitions / flags / prefix present in one file only) so that leakage through process-wide state shows as a difference.",
+    SIM_NOTE,
+    "deterministic simulation: differential histories over a simulated disk + directory-traversal-order schedules",
+    "DESIGN.md section 4, C08")
+
+add("C15", "exploration",
+    "Whole-sandbox write-set invariant checked after every step of seeded command histories: snapshot diff (content, type, mode, mtime for inspecting commands) and the traced write calls of the I/O seam must lie inside the allow-list the statement gives for that command under the root resolved by the statement's rule. Trees carry dirty decoys of every kind, a nested root and a sibling tree outside the root.",
+    SIM_NOTE,
+    "deterministic simulation: write monitor (disk snapshots + I/O seam trace) over command histories in controlled process environments",
+    "DESIGN.md section 4, C15")
+
+add("C16", "fault_enumeration",
+    "Every cell of {fault class} x {position} x {command} from the statement's list is enumerated in every run and instantiated on seeded valid worlds, each with a fault-free control run on the twin world; the faulted run must exit non-zero, print no regex and leave the failing item's target (and for single-target invocations the whole tree) byte-identical. A second tier injects EROFS / ENOSPC on the write of the target through the I/O seam.",
+    SIM_NOTE,
+    "deterministic simulation: single-fault enumeration (tree faults by mutation of valid worlds, I/O faults through the seam) with fault-free controls",
+    "DESIGN.md section 4, C16")
